@@ -1,6 +1,6 @@
 """C11 driver (lifting): transpose / augment / diminish at container, bar and track level."""
 from mingus.containers import Track
-from .common import call, txt, Shape
+from .common import observe, call, txt, Shape
 from .c14 import KINDS, apply_track, track_proj
 
 
@@ -28,7 +28,7 @@ def run_case(c):
             except Exception:
                 pass
     rec = call("build", {"instr": c["instr"], "n": len(c["acts"])}, build, lambda _: 0)
-    rec["obs"] = track_proj(t)
+    observe(rec, lambda: track_proj(t), {"bars": []})
     R.append(rec)
     for s in c["steps"]:
         nb = len(t.bars)
@@ -49,12 +49,12 @@ def run_case(c):
             else:
                 tgt.diminish()
         rec = call("lift", {"op": s["op"], "level": level, "sh": s["sh"], "up": s["up"], "scope": scope}, f, lambda _: 0)
-        rec["obs"] = track_proj(t)
+        observe(rec, lambda: track_proj(t), R[-1]["obs"])
         R.append(rec)
     def ad():
         t.augment()
         t.diminish()
     rec = call("augdim", {}, ad, lambda _: 0)
-    rec["obs"] = track_proj(t)
+    observe(rec, lambda: track_proj(t), R[-1]["obs"])
     R.append(rec)
     return R
